@@ -268,3 +268,32 @@ def reply_method_for(table, name, ok):
 def expected_reply_on(table, name):
     c = table["names"][name]["cover"]
     return {"s": "success", "e": "error", "se": "always", "a": "always"}[c]
+
+
+# ---------------------------------------------------------------- entry-point configurations (C06)
+
+ALL_EP_KINDS = ["instantiate", "exec", "query", "sudo", "migrate", "reply"]
+
+
+def gen_ep_config_program(rng, name, overrides, migrate, reply, replies_feature):
+    """A program with a given entry-point configuration.
+    reply: None | "legacy" | "table"; replies_feature only matters with reply handlers."""
+    for _ in range(50):
+        p = gen_program(rng, name, n_ifaces=rng.choice([0, 1]))
+        has_m = any(h["kind"] == "migrate" for h in p["parts"][0]["handlers"])
+        if has_m == migrate:
+            break
+    else:
+        c = p["parts"][0]
+        if migrate:
+            c["handlers"].append(_new_handler(rng, p, c, "migrate", "migrate_v9", False))
+        else:
+            c["handlers"] = [h for h in c["handlers"] if h["kind"] != "migrate"]
+    if reply == "table":
+        gen_reply_table(rng, p)
+    elif reply == "legacy":
+        p["parts"][0]["handlers"].append({"kind": "reply", "name": "reply", "safe": True, "hid": "c.reply.reply", "part": "c",
+                                          "legacy": True, "args": [], "ret_err": "own"})
+    p["overrides"] = [{"kind": k, "fn": f"ov_{k}", "msg": ("Reply" if k == "reply" else "svmon::OvMsg")} for k in overrides]
+    p["ep_config"] = {"overrides": list(overrides), "migrate": migrate, "reply": reply}
+    return p
